@@ -17,14 +17,28 @@ VARSETS = (None, {"s": True, "i": True}, {"s": False, "i": False}, {"s": True, "
 REQUEST_ERROR = "<request error: no execution>"
 
 
-def real_run(schema, text, variables, data, opname):
-    res = graphql_blocking(schema, text, variables=variables, root=data, operation_name=opname)
+def _outcome_of(res):
     errs = sorted(((tuple(e.path) if getattr(e, "path", None) is not None else None, (e.nodes[0].loc[0] if getattr(e, "nodes", None) else None))
                    for e in res.errors), key=repr)
     got = res.response().get("data", "<no data>")
     if got in (None, "<no data>") and errs and all(p is None for p, _ in errs):
         return REQUEST_ERROR, [], [str(e) for e in res.errors]       # rejected before execution: errors without a path, no data
     return got, errs, [str(e) for e in res.errors]
+
+
+EXECUTORS_DIFFER = "<BlockingExecutor and the generic Executor answer differently>"
+
+
+def real_run(schema, text, variables, data, opname):
+    """the request through BOTH implementations of the execution algorithm (BlockingExecutor via graphql_blocking, the generic Executor on the blocking
+    runtime); they must agree, and the caller compares the common answer with the reference"""
+    from py_gql import process_graphql_query
+    from py_gql.execution import Executor
+    a = _outcome_of(graphql_blocking(schema, text, variables=variables, root=data, operation_name=opname))
+    b = _outcome_of(process_graphql_query(schema, text, variables=variables, root=data, operation_name=opname, executor_cls=Executor))
+    if json.dumps(a[0]) != json.dumps(b[0]) or a[1] != b[1]:
+        return EXECUTORS_DIFFER, [], ["%r vs %r" % (a, b)]
+    return a
 
 
 def ref_run(text, variables, data, opname, fail):
